@@ -39,7 +39,7 @@ def source(D, ms, backend, disabled):
         out.append(f"    {G.r_impl_header(m)} {{")
         if f"{m['owner']}::{m['name']}" in disabled:
             out.append(f"        #[diplomat::attr({ATTR[backend]}, disable)]")
-        out.append(G.r_method(m))
+        out.append(G.r_method(m, with_attr=True))
         out.append("    }")
     out.append("}")
     return "\n".join(out) + "\n"
@@ -321,10 +321,15 @@ def check_nanobind(D, ms, out, violate, stats, lib_rs, disabled):
             continue
         if any(t[0] == "slice" and t[3] != "u8" for t in m["ret"]):
             continue                                     # strings are copied; primitive slices are zero-copy arrays and need keep_alive
-        mm = re.search(r'\.def(?:_static)?\("%s", &%s::%s\b([^\n]*)' % (m["name"], m["owner"], m["name"]), text)
+        if m.get("attr") == "constructor":
+            # nb::new_: the nurse is the object under construction (index 1), so the explicit arguments start at index 2
+            mm = re.search(r'\.def\(nb::new_\(&%s::%s\)([^\n]*)' % (m["owner"], m["name"]), text)
+            kept = {int(x) - 1 for x in re.findall(r"nb::keep_alive<1, (\d+)>", mm.group(1))} if mm else set()
+        else:
+            mm = re.search(r'\.def(?:_static)?\("%s", &%s::%s\b([^\n]*)' % (m["name"], m["owner"], m["name"]), text)
+            kept = {int(x) for x in re.findall(r"nb::keep_alive<0, (\d+)>", mm.group(1))} if mm else set()
         if not mm:
             continue
-        kept = {int(x) for x in re.findall(r"nb::keep_alive<0, (\d+)>", mm.group(1))}
         need = {e[1] + 1 for _, edges in G.spec_map(D, m) for e in edges}
         stats["nanobind_methods"] += 1
         if not need <= kept:
@@ -395,7 +400,9 @@ def run(ctx, bridges, violate, goals=None):
                     path = os.path.join(out, m["owner"] + ext)
                     if not os.path.exists(path):
                         continue
-                    body = (js_method if backend == "js" else dart_method)(open(path).read(), m["name"])
+                    # a constructor is `#defaultConstructor(..)` in JS and `factory Owner(..)` in Dart
+                    lookup = m["name"] if m.get("attr") != "constructor" else ("#defaultConstructor" if backend == "js" else m["owner"])
+                    body = (js_method if backend == "js" else dart_method)(open(path).read(), lookup)
                     if body is None:
                         continue
                     stats[f"{backend}_methods"] += 1
